@@ -206,6 +206,69 @@ def decimal_case(rng, kind=None, nd=None, absent=False):
     return c
 
 
+def scale_case(rng, kind=None, decimal=False):
+    """'Scale' stream: N in 30..120 rows, 2-3 dimensions from cubelib.gen_lopsided (one dominant category of 60-90 % of
+    the rows, a filler, rare categories of 1-3 rows whose last row often lies in the next dimension's dominant category;
+    stored common = filler / rare / absent / dominant), facts with a few missing rows, ordinary dyadic or decimal weights."""
+    from .props import cubelib
+    N, spec = cubelib.gen_lopsided(rng)
+    spec = spec[:3]
+    c = gen_case(rng, kind=kind, nd=len(spec), N=N)
+    c["arrs"] = [list(col) for col, _, _ in spec]
+    c["commons"] = [int(cm) for _, cm, _ in spec]
+    c["exts"] = [int(e) for _, _, e in spec]
+    if c["fact"] is not None:
+        pm = rng.choice([0.0, 0.03, 0.08])
+        c["fvalid"] = [[rng.random() >= pm for _ in row] for row in c["fact"]]
+    if c["wkind"] in ("arr", "pair"):
+        pm = rng.choice([0.0, 0.03, 0.08])
+        c["wvalid"] = [rng.random() >= pm for _ in range(N)]
+    if decimal:
+        if c["wkind"] in ("arr", "pair"):
+            c["w"] = [Fr(rng.choice(DECIMAL_W)) for _ in range(N)]
+        elif c["wkind"].startswith("scalar"):
+            c["w"] = Fr(rng.choice(DECIMAL_W[:-1]))
+        if c["fact"] is not None:
+            c["fdtype"] = "f8"
+            c["fact"] = [[Fr(rng.choice(DECIMAL_F)) for _ in row] for row in c["fact"]]
+            if c["fhidden"] not in HIDDEN:
+                c["fhidden"] = "nan"
+        c["float_stream"] = True
+    c["xdtype"] = rng.choice(["to_array", "uint8", "int64", "uint16"])
+    c["shape_mode"] = "explicit"
+    c["N_arg"] = None
+    c["scale"] = True
+    return c
+
+
+def many_columns_case(rng, kind=None):
+    """one dimension with 23..40 categories (codes >= 22 used) and a fact of 12..14 columns: (cell, column) pair numbers
+    beyond 255 while the cube itself has <= 255 cells (uint8 coordinates)"""
+    e = rng.randint(23, 40)
+    N = rng.randint(30, 60)
+    K = rng.randint(12, 14)
+    c = gen_case(rng, kind=kind or rng.choice(["sum", "sum", "mean", "valid_count"]), nd=1, N=N)
+    top = [e - 1, e - 1, e - 2, e - 3, 22, 0, 1]
+    c["arrs"] = [[rng.choice(top) if rng.random() < 0.7 else rng.randrange(e) for _ in range(N)]]
+    c["arrs"][0][0] = e - 1
+    c["exts"] = [e]
+    c["commons"] = [rng.choice([0, e - 1, rng.randrange(e)])]
+    c["K"] = K
+    pm = rng.choice([0.0, 0.05, 0.15])
+    pool = [f for f in FACT_POOL if f.denominator == 1] if c["fdtype"] == "i8" else FACT_POOL
+    c["fact"] = [[rng.choice(pool) for _ in range(K)] for _ in range(N)]
+    c["fvalid"] = [[rng.random() >= pm for _ in range(K)] for _ in range(N)]
+    c["xdtype"] = rng.choice(["uint8", "to_array", "int64"])
+    c["shape_mode"] = rng.choice(["explicit", "inferred"])
+    c["many_columns"] = True
+    return c
+
+
+def literal_is_small(c):
+    """send a case to Coq only while its literal stays within a few hundred numbers"""
+    return c["N"] * (2 * len(c["exts"]) + (c["K"] or 1) * (c["fact"] is not None) + 1) <= 450
+
+
 # --------------------------------------------------------------------------
 # building the real arguments
 # --------------------------------------------------------------------------
@@ -772,6 +835,7 @@ class Suite:
         self.ctx, self.catii = ctx, catii
         self.lits, self.metas, self.found = [], [], []
         self.calls = 0
+        self.oracle_only = 0          # real calls judged by the oracle (and cube-vs-cube) only: literal too large / inexact stream
         self.dist = {}
 
     def count(self, key):
@@ -805,6 +869,8 @@ class Suite:
             bad = judge(c, w, fmt, res, shape_expected=want_shape)
             if bad:
                 self.fail(c, fmt, w, bad, {"tag": tag} if tag else None)
+        if not (to_coq and not c.get("float_stream")):
+            self.oracle_only += 1
         if to_coq and not c.get("float_stream"):
             ok_c = rc is None or "shape" in rc
             ok_x = rx is None or "shape" in rx
